@@ -228,7 +228,7 @@ mod imp {
         }
         fn budget(&self, tier: Tier) -> u64 {
             match tier {
-                Tier::Quick => 6_000,
+                Tier::Quick => 25_000,
                 Tier::Thorough => 150_000,
             }
         }
